@@ -37,6 +37,7 @@ fn main() {
         "C03" => props::c03::main(&args),
         "C04" => props::c04::main(&args),
         "C05" => props::c05::main(&args),
+        "C06" => props::c06::main(&args),
         "C07" => props::c07::main(&args),
         "C08" => props::c08::main(&args),
         "C09" => props::store::main(&args, props::store::Focus::Rollback),
